@@ -187,6 +187,13 @@ func genModelCase(rt *rapid.T) (ExecCase, *Path) {
 			} else {
 				top = &Node{K: KUn, S: g.pick([]string{"-", "+"}, "sgn"), A: root}
 			}
+			if g.chance(50, "opchain") {
+				// steps after the parenthesised operator: each emitted item must reach them
+				top.Next = &Node{K: KFilter, A: &Node{K: KBin, S: g.pick(cmpOps, "fop"), A: &Node{K: KCur}, B: &Node{K: KInt, I: int64(g.n(7, "fl")) - 3}}}
+				if g.chance(30, "opchain2") {
+					top.Next.Next = &Node{K: KMethod, S: g.pick([]string{"abs", "type", "string", "double"}, "om")}
+				}
+			}
 			p := &Path{Strict: strict, Root: Normalize(top)}
 			return ExecCase{Path: p.Canon(), Doc: doc.Text(), Opts: opts}, p
 		}
@@ -199,7 +206,7 @@ func genModelCase(rt *rapid.T) (ExecCase, *Path) {
 // modelTableCases: a bounded sweep of short paths over a small alphabet.
 func modelTableCases() []ExecCase {
 	steps := []string{".a", ".b", ".*", "[*]", "[0]", "[last]", "[0 to 1]", ".**", ".**{1}", ".**{last}", ".**{1 to last}", " ? (@ > 1)", " ? (@.a == 1)", " ? (exists(@.a))", ".size()", ".type()", ".abs()", ".string()", ".double()", ".keyvalue()", ".keyvalue().value", ".floor()", ".boolean()", ".integer()", ".number()", ".bigint()", ".ceiling()", ".decimal(3,1)", ".datetime()", ".date()"}
-	docs := []string{`1`, `"2015-08-01"`, `null`, `[]`, `[1,2]`, `[1,"a",null]`, `{"a":1}`, `{"a":[1,2]}`, `[{"a":1},{"a":2}]`, `[{"a":[2,3]},{"b":1}]`, `{"a":{"a":1.5}}`, `[[1,2],[3]]`, `{"a":"12"}`, `[true,"t",0]`, `{"a":-1.5,"b":null}`}
+	docs := []string{`1`, `"2015-08-01"`, `null`, `[]`, `[1,2]`, `[1,"a",null]`, `{"a":1}`, `{"a":[1,2]}`, `[{"a":1},{"a":2}]`, `[{"a":[2,3]},{"b":1}]`, `{"a":{"a":1.5}}`, `[[1,2],[3]]`, `{"a":"12"}`, `[true,"t",0]`, `{"a":-1.5,"b":null}`, `{"a":"x","b":"5"}`, `{"a":null,"b":2}`, `[[1,"x"],2]`, `[1,"x",3]`}
 	var out []ExecCase
 	for _, s1 := range steps {
 		for _, s2 := range append([]string{""}, steps...) {
@@ -270,6 +277,54 @@ func pgCorpusCases() []ExecCase {
 	return out
 }
 
+// stressDocs: a document whose keys the "context stress" generator uses, so
+// that nested filters, subscripts with last / @ / $ and exists() guards all
+// reach data; the two rows differ in every field that a leaked binding could
+// confuse.
+var stressDocs = []string{
+	`{"rows":[{"o":{"ok":true,"arr":[10,20,30],"pick":2,"n":[0,1]},"pick":1,"arr":[1,2,3,4],"n":[2],"s":"ab"},{"o":{"ok":false,"arr":[40,50],"pick":0,"n":[1]},"pick":0,"arr":[5,6],"n":[0,1,1],"s":"b"}],"i":[1,2],"n":1,"pick":3,"arr":[7,8,9],"p":["a"],"q":"a"}`,
+	`{"rows":[{"o":{"ok":true,"arr":[1],"pick":0,"n":[0]},"pick":2,"arr":["x",2,3],"n":[1,"x"],"s":"abc"}],"i":[0],"n":2,"pick":0,"arr":[1,"x"],"p":["ab","x"],"q":"ab"}`,
+}
+
+func genStressCase(rt *rapid.T) (ExecCase, *Path) {
+	cfg := GenCfg{MaxNodes: 16, HardErrPct: 3, NoDatetime: true, NoRegex: true, NoDecimal: true, NoKeyvalue: true, NoAny: true, NoWildKey: true,
+		Keys: []string{"rows", "o", "ok", "arr", "pick", "n", "i", "s", "arr", "pick", "n"}, VarNames: []string{"p", "q", "n"},
+		Strs: []string{"a", "ab", "b", "x"}, Ints: []int64{0, 1, 2, 3}, Nums: []float64{0.5, 1.5}}.withDefaults()
+	g := &pgen{t: rt, c: cfg}
+	g.budget = 4 + g.n(12, "size")
+	strict := g.chance(35, "strict")
+	// $.rows[*] ? (<cond over @ with nested filters and computed subscripts>) <tail>
+	cx := gctx{inFilter: true}
+	var cond *Node
+	switch g.choose("shape", 40, 30, 30) {
+	case 0:
+		cond = g.pred(cx)
+	case 1:
+		// a nested filter followed, in the same chain, by a subscript that uses the outer bindings
+		inner := &Node{K: KCur, Next: &Node{K: KKey, S: "o", Next: &Node{K: KFilter, A: g.pred(cx), Next: &Node{K: KKey, S: "arr", Next: &Node{K: KIdx, Subs: []Sub{{From: g.bound(cx)}}}}}}}
+		cond = &Node{K: KBin, S: g.pick(cmpOps, "cop"), A: inner, B: &Node{K: KInt, I: []int64{10, 20, 30, 40, 50}[g.n(5, "cv")]}}
+	default:
+		// exists() guard with its own subscript inside a bound, then last / @ again
+		guard := &Node{K: KInt, I: 0, Next: &Node{K: KFilter, A: &Node{K: KExists, A: &Node{K: KRoot, Next: &Node{K: KKey, S: "rows", Next: &Node{K: KIdx, Subs: []Sub{{From: &Node{K: KInt, I: int64(g.n(2, "gr"))}}}, Next: &Node{K: KKey, S: g.pick([]string{"arr", "n", "s", "zz"}, "gk"), Next: g.chain(gctx{}, g.n(2, "gl"))}}}}}}}
+		idx := &Node{K: KIdx, Subs: []Sub{{From: guard, To: g.bound(cx)}}}
+		if g.chance(50, "list") {
+			idx = &Node{K: KIdx, Subs: []Sub{{From: guard}, {From: g.bound(cx)}}}
+		}
+		cond = &Node{K: KBin, S: g.pick(cmpOps, "cop2"), A: &Node{K: KCur, Next: &Node{K: KKey, S: "arr", Next: idx}}, B: g.literal()}
+	}
+	root := &Node{K: KRoot, Next: &Node{K: KKey, S: "rows", Next: &Node{K: KAnyArr, Next: &Node{K: KFilter, A: cond}}}}
+	if g.chance(50, "tail") {
+		root.chainEnd().Next = g.chain(gctx{}, 1+g.n(2, "tl"))
+	}
+	p := &Path{Strict: strict, Root: Normalize(root)}
+	doc := stressDocs[g.n(len(stressDocs), "doc")]
+	opts := Opts{UseNumber: g.chance(50, "num"), HasVars: true, Vars: map[string]string{"p": `["a"]`, "q": `"a"`, "n": `1`}}
+	if g.chance(30, "pvar") {
+		opts.Vars["p"] = `["ab","b"]`
+	}
+	return ExecCase{Path: p.Canon(), Doc: doc, Opts: opts}, p
+}
+
 func TestC01(t *testing.T) {
 	ev := newEv(t, "C01")
 	c01Ev = ev
@@ -290,6 +345,9 @@ func TestC01(t *testing.T) {
 		}
 		for _, k := range kinds {
 			ev.Label("node:" + k)
+		}
+		if f.excluded == "not_parsed" {
+			ev.Sample("not_parsed", c)
 		}
 		ev.Sample(class+":"+f.class, c)
 	}
@@ -325,6 +383,12 @@ func TestC01(t *testing.T) {
 		if len(cs) == 0 {
 			ev.Note("path/exec/pg_test.go not found: the PostgreSQL-derived inputs were not replayed")
 		}
+	})
+	ev.rapidProp(t, "context_stress", func(rt *rapid.T) {
+		c, p := genStressCase(rt)
+		v, f := checkModelFacts(c)
+		record("context_stress", c, f, nodeKinds(p.Root))
+		ev.Check(rt, "c01.model", c, v)
 	})
 	ev.rapidProp(t, "random", func(rt *rapid.T) {
 		c, p := genModelCase(rt)
